@@ -144,10 +144,11 @@ func unwrapCmp(v ssa.Value) ssa.Value {
 
 // Facts holds the per-block must-facts of a function.
 type Facts struct {
-	p   *Prog
-	fn  *ssa.Function
-	in  map[*ssa.BasicBlock]FactSet
-	sub map[*ssa.Function]*Facts
+	p      *Prog
+	fn     *ssa.Function
+	in     map[*ssa.BasicBlock]FactSet
+	sub    map[*ssa.Function]*Facts
+	assume FactSet // extra assumptions of a ProveWith call
 }
 
 // MustFacts runs the forward must-dataflow: a fact holds at a block iff it is established on
@@ -398,13 +399,40 @@ func (fs *Facts) Prove(op string, x, y ssa.Value, at ssa.Instruction) bool {
 	return fs.prove(op, x, y, fs.At(at), 0)
 }
 
+// ProveWith is Prove under additional assumptions (facts established elsewhere, e.g. an invariant of another object).
+func (fs *Facts) ProveWith(op string, x, y ssa.Value, at ssa.Instruction, assume ...Fact) bool {
+	old := fs.assume
+	fs.assume = FactSet{}
+	for _, f := range assume {
+		fs.assume.add(f)
+	}
+	defer func() { fs.assume = old }()
+	return fs.prove(op, x, y, fs.At(at), 0)
+}
+
 func (fs *Facts) prove(op string, x, y ssa.Value, ctx FactSet, depth int) bool {
+	if len(fs.assume) > 0 {
+		ctx = ctx.clone()
+		for _, f := range fs.assume {
+			ctx.add(f)
+		}
+	}
 	x, y = unwrapCmp(x), unwrapCmp(y)
 	if holdsIn(ctx, op, x, y) {
 		return true
 	}
 	if depth > 6 {
 		return false
+	}
+	// transitivity through a known fact: x <= z is provable and z <= y is known
+	if op == "le" && depth < 4 {
+		for _, f := range ctx {
+			if (f.Op == "le" || f.Op == "lt" || f.Op == "eq") && f.Y != nil && valID(f.Y) == valID(y) && valID(f.X) != valID(y) && valID(f.X) != valID(x) {
+				if fs.prove("le", x, f.X, ctx, depth+3) {
+					return true
+				}
+			}
+		}
 	}
 	px, okx := x.(*ssa.Phi)
 	py, oky := y.(*ssa.Phi)
